@@ -324,6 +324,9 @@ func runBehaviours(c *core.Ctx, lfsBin string, bs []*behaviour, fn replayFn, wor
 
 func init() {
 	registry["C03"] = func(c *core.Ctx, replay string) {
+		if replayBehaviourOnly(c, replay, replayPush, "model_checking") {
+			return
+		}
 		c.Level = "model_checking"
 		lfs := c.BuildLFS()
 		cfg, budget := "Push_q.cfg", 260
